@@ -31,7 +31,16 @@
 // `update_face_types` — forwards to the base after the hook); the output is that of `pslots`, and in every iteration in which `cell_divider::run`
 // called `divide_cell` the hook (first `update_face_types` call of the iteration = right after `cell_divider::run`) prints the WHOLE list as the
 // divider left it:  `DS <iteration> <attempts>`, `J`, `I`, per cell `C`, `R`, `B`, closed by `DE`.
-// usage: h_solver <param.xml> <iters> <threads> <dump_every> [tx ty tz (hex)] [full|run|tissue|slots|tslots|pslots|dslots]
+// with the mode word `d2slots` (C14, the WHOLE divide_cell inside the assembled model) the output is that of `dslots`, and for every call of
+// `divide_cell` (observed through the virtual `get_cell_division_axis()` of the probe class, which forwards to the base) two more lines are
+// printed while the iteration runs:
+//   DA <iteration> <cell id> <local id> <axis hex x3> <centroid hex x3>            the axis the code used (and compute_centroid() of the rebased mother)
+//   DD <np> <x y hex>*np <nt> <a b c>*nt    |    DD none <exception>                the interface triangulation `D` in the plane frame: the points created by the
+//                                            Poisson sampling (2-D) and the triangles kept from the Delaunay triangulation (indices relative to the first interface point)
+// `D` is obtained by running the REAL public stages (add_intersection_points … triangulate_division_interface) on the mother a second time, in front of the
+// real `divide_cell`, with the same value of the clock that seeds the Poisson sampler: in this mode `std::chrono::system_clock::now()` is answered by the
+// harness (a counter that the shadow evaluation rewinds); nothing of the solver is replaced, and in every other mode the clock is the real one.
+// usage: h_solver <param.xml> <iters> <threads> <dump_every> [tx ty tz (hex)] [full|run|tissue|slots|tslots|pslots|dslots|d2slots]
 #include "proto.hpp"
 #include "simulation_initializer.hpp"
 #include "solver.hpp"
@@ -39,6 +48,22 @@
 #include <optional>
 #include <sstream>
 #include "custom_exception.hpp"
+#include "cell_divider.hpp"
+#include "initial_triangulation.hpp"
+#include <chrono>
+#include <numeric>
+#include <time.h>
+
+// ---------------------------------------------------------------- mode `d2slots`: the clock that seeds the Poisson sampler
+static bool g_fake_clock = false;
+static long long g_fake_now = 1700000000000000000LL;
+std::chrono::system_clock::time_point std::chrono::system_clock::now() noexcept {
+    if(!g_fake_clock){
+        timespec ts; clock_gettime(CLOCK_REALTIME, &ts);
+        return time_point(std::chrono::duration_cast<duration>(std::chrono::seconds(ts.tv_sec) + std::chrono::nanoseconds(ts.tv_nsec)));
+    }
+    return time_point(duration(g_fake_now++));
+}
 
 using vproto::to_hex; using vproto::from_hex;
 
@@ -170,6 +195,16 @@ static stepping_solver* g_solver = nullptr;
 static long g_last_hook_iter = -1;
 static unsigned g_attempts = 0;          // calls of get_cell_same_type since the last hook (two per divide_cell that reached create_daughter_cells)
 static void hook_after_divider();
+static bool g_record_div = false;
+static double g_lmin = 0.;
+static void record_division(cell_ptr c, const vec3& axis);
+static std::string exc_name_div(const std::exception& e){
+    if(dynamic_cast<const division_exception*>(&e)) return "division";
+    if(dynamic_cast<const initial_triangulation_exception*>(&e)) return "initial_triangulation";
+    if(dynamic_cast<const mesh_integrity_exception*>(&e)) return "integrity";
+    if(dynamic_cast<const std::bad_optional_access*>(&e)) return "badopt";
+    return "other";
+}
 class probe_epi : public epithelial_cell {
 public:
     explicit probe_epi(const epithelial_cell& c) : epithelial_cell(c) {}
@@ -179,7 +214,42 @@ public:
         return std::make_shared<probe_epi>(m, cell_id_, cell_type_);     // the body of epithelial_cell::get_cell_same_type with the probe class
     }
     void update_face_types() noexcept override { hook_after_divider(); epithelial_cell::update_face_types(); }
+    vec3 get_cell_division_axis() const noexcept override {
+        const vec3 ax = epithelial_cell::get_cell_division_axis();
+        if(g_record_div) record_division(std::const_pointer_cast<cell>(shared_from_this()), ax);
+        return ax;
+    }
 };
+// mode `d2slots`: the axis and the interface triangulation of the divide_cell call that is asking for the axis
+static void record_division(cell_ptr c, const vec3& axis){
+    const vec3 centroid = c->compute_centroid();
+    std::ostringstream o;
+    o << "DA " << (g_solver ? (long) g_solver->iteration() : -1) << ' ' << c->get_id() << ' ' << c->get_local_id() << ' ' << cell_tester::hv(axis) << ' ' << cell_tester::hv(centroid) << '\n';
+    const long long clock0 = g_fake_now;
+    try{
+        const unsigned thr = c->get_node_lst().size();
+        mesh m = cell_divider::add_intersection_points(c, centroid, axis);
+        cell_divider::divide_faces(m, thr);
+        const unsigned fthr = m.face_point_ids.size();
+        const unsigned nb = m.node_pos_lst.size() / 3 - thr;
+        std::vector<unsigned> ids(nb);
+        std::iota(ids.begin(), ids.end(), thr);
+        m.face_point_ids.push_back(ids);
+        initial_triangulation::coarse_triangulation(m);
+        cell_divider::map_points_to_xy_plane(m, thr, axis);
+        const size_t n0 = m.node_pos_lst.size() / 3;
+        cell_divider::triangulate_division_interface(g_lmin, m, thr, fthr, axis);
+        const size_t n1 = m.node_pos_lst.size() / 3;
+        o << "DD " << (n1 - n0);
+        for(size_t i = n0; i < n1; i++) o << ' ' << to_hex(m.node_pos_lst[3*i]) << ' ' << to_hex(m.node_pos_lst[3*i + 1]);
+        o << ' ' << (m.face_point_ids.size() - fthr);
+        for(size_t f = fthr; f < m.face_point_ids.size(); f++) for(unsigned x : m.face_point_ids[f]) o << ' ' << (x - thr);
+        o << '\n';
+    }
+    catch(const std::exception& e){ o << "DD none " << exc_name_div(e) << '\n'; }
+    g_fake_now = clock0;        // the real divide_cell sees the same clock values as the shadow evaluation
+    std::cout << o.str();
+}
 static void hook_after_divider(){
     if(g_solver == nullptr) return;
     const long it = g_solver->iteration();
@@ -214,6 +284,8 @@ int main(int argc, char** argv){
     if(argc >= 8 && std::string(argv[5]).size() == 16){ t = vec3(from_hex(argv[5]), from_hex(argv[6]), from_hex(argv[7])); translate = true; k = 8; }
     const std::string mode = argc > k ? argv[k] : "full";
     std::ios::sync_with_stdio(false);
+    const bool d2 = mode == "d2slots";
+    if(d2) g_fake_clock = true;
     try{
         omp_set_num_threads(threads);
         simulation_initializer sim_init(param, false);
@@ -221,7 +293,8 @@ int main(int argc, char** argv){
         if(translate){
             for(cell_ptr c : cells){ cell_tester::translate(c, t); c->initialize_cell_properties(false); }
         }
-        if(mode == "dslots"){
+        if(mode == "dslots" || d2){
+            if(d2){ g_record_div = true; g_lmin = sim_init.get_simulation_parameters().min_edge_len_; }
             for(size_t i = 0; i < cells.size(); i++){
                 auto e = std::dynamic_pointer_cast<epithelial_cell>(cells[i]);
                 if(e){ auto p = std::make_shared<probe_epi>(*e); p->set_face_owner_cell(); cells[i] = p; }
@@ -229,7 +302,7 @@ int main(int argc, char** argv){
         }
         {
             stepping_solver s(sim_init.get_simulation_parameters(), cells, threads, true, false);
-            if(mode == "dslots") g_solver = &s;
+            if(mode == "dslots" || d2) g_solver = &s;
             if(mode == "run"){
                 s.run();
                 std::cout << "S " << s.iteration() << ' ' << to_hex(s.time()) << ' ' << s.get_cell_lst().size() << '\n';
@@ -239,17 +312,17 @@ int main(int argc, char** argv){
                 for(int i = 0; i <= iters; i++){
                     if(i % every == 0 || i == iters){
                         std::cout << "S " << s.iteration() << ' ' << to_hex(s.time()) << ' ' << s.get_cell_lst().size() << '\n';
-                        if(mode == "slots" || mode == "tslots" || mode == "pslots" || mode == "dslots") std::cout << "J " << s.file_number() << '\n';
-                        if(mode == "pslots" || mode == "dslots") std::cout << "I " << s.max_cell_id() << '\n';
+                        if(mode == "slots" || mode == "tslots" || mode == "pslots" || mode == "dslots" || d2) std::cout << "J " << s.file_number() << '\n';
+                        if(mode == "pslots" || mode == "dslots" || d2) std::cout << "I " << s.max_cell_id() << '\n';
                         for(cell_ptr c : s.get_cell_lst()){
-                            cell_tester::dump(c, mode != "tslots" && mode != "pslots" && mode != "dslots");
+                            cell_tester::dump(c, mode != "tslots" && mode != "pslots" && mode != "dslots" && !d2);
                             if(mode == "tissue") cell_tester::dump_contact_state(c);
-                            if(mode == "slots" || mode == "tslots" || mode == "pslots" || mode == "dslots") cell_tester::dump_slots(c);
-                            if(mode == "tslots" || mode == "pslots" || mode == "dslots") cell_tester::dump_attrs_raw(c);
+                            if(mode == "slots" || mode == "tslots" || mode == "pslots" || mode == "dslots" || d2) cell_tester::dump_slots(c);
+                            if(mode == "tslots" || mode == "pslots" || mode == "dslots" || d2) cell_tester::dump_attrs_raw(c);
                         }
                     }
                     if(i == iters || s.get_cell_lst().empty()) break;
-                    if(mode == "slots" || mode == "tslots" || mode == "pslots" || mode == "dslots"){
+                    if(mode == "slots" || mode == "tslots" || mode == "pslots" || mode == "dslots" || d2){
                         try{ s.run_iteration(); }
                         catch(const std::exception& e){ std::cout << "X " << exc_name(e) << '\n'; break; }
                     }
